@@ -112,6 +112,19 @@ def gndxTable : List Walk.Mol → Nat → Nat → List ((Nat × Walk.Node) × Na
     else (m.nodes.zipIdx.map (fun nk => ((molCount, nk.1), idx + nk.2))) ++
          gndxTable ms (molCount + 1) (idx + m.nodes.length)
 
+/-- `atypes`: the residue-type name the engine uses at every global index: the names of the residues of
+the non-ignored molecules, in order (`nm j n` = template name, else resname, of residue `n` of molecule `j`) -/
+def atypeTable (nm : Nat → Walk.Node → String) : List Walk.Mol → Nat → List String
+  | [], _ => []
+  | m :: ms, molCount =>
+    if m.ignored then atypeTable nm ms (molCount + 1)
+    else m.nodes.map (nm molCount) ++ atypeTable nm ms (molCount + 1)
+
+/-- specification side: at the global index of every indexed residue the engine holds the type of
+that very residue (evaluated on the observed table and the observed `atypes`) -/
+def specTypes (nm : Nat → Walk.Node → String) (table : List ((Nat × Walk.Node) × Nat)) (atypes : List String) : Bool :=
+  table.all (fun e => atypes[e.2]? == some (nm e.1.1 e.1.2))
+
 /-- specification of the table (C04_ignore_table) as a check on an observed table -/
 def specTable (mols : List Walk.Mol) (table : List ((Nat × Walk.Node) × Nat)) : Bool :=
   (table.map (·.2) == List.range table.length) &&
